@@ -48,8 +48,12 @@ P = {
                   "transfers with distinct ids and all event orders of Send; the model is run against the real code on exhaustive "
                   "(L, m) sweeps, concurrent TransferManager pairs, scripted faulty peers and whole sessions of the real Client against a scripted raw "
                   "peer (announced Segment MRU, bursts, late consumer) and against another Client.",
-    "level_note": "partial for real sockets: timeouts and scheduling are modelled as events; the tie to Go is the differential "
-                  "check. Go runtime/stdlib (io.Pipe, bufio, channels) modelled not verified.",
+    "level_note": "partial for real sockets: in Tcpcl.v timeouts and scheduling are modelled as events; Model/TcpclConc.v (part "
+                  "C11_conc) models the goroutine / channel network of an established session with the real capacities and proves "
+                  "progress against an ideal peer, soundness of Send's success under every interleaving, and the exact stall "
+                  "window of a pair of sessions (known finding tcpcl.pair.bulk-both-directions-stalls as theorems). The tie to Go is "
+                  "the differential check and the operator-shape / capacity lemmas. Go runtime/stdlib (io.Pipe, bufio, channels) "
+                  "modelled not verified.",
     "timeout_quick": 600,
     "timeout_thorough": 3600,
 }
